@@ -83,6 +83,22 @@ CHECKS = {
          "and 10 offsets around each of 58 transitions x 2 signs, specials, 23k-460k random floats.",
          "Within 1e-9 deg of a transition either neighbour is accepted (as the statement allows). py_common lane here; the Cython twin is C15's.",
          "DESIGN.md section 5 C06"),
+ "C11": ("TLA+ spec of the Doc 9871 register layouts (BDS 1,0 1,7 4,0 4,4 4,5 5,0 5,3 6,0): encoder as (value,width) lists, decoder as "
+         "absolute positions with status gating, two's complement, LSB and wrap; TLC checks layout agreement for every raw value and "
+         "tiling; every raw value x status x sign x three fillings replayed into the 40 commb names + bds53 and validated by TLC",
+         "Exhaustive per field (<= 2^12 raw values; 18-bit wind field sampled) x status x sign x {zeros, ones, seeded} other bits, DF20/21; "
+         "recorded Comm-B traffic through every decoder; object identity of commb.* and bdsXX.*.",
+         "Rational projection of floats with per-field denominators (exactness 1e-6); named deviations Temp4xIgnoresStatus, "
+         "Temp44TwoValues, VR53AllOnesIsZero follow the library.",
+         "DESIGN.md section 5 C11, Appendix D"),
+ "C12": ("TLA+ spec of every register acceptance rule (status, reserved-bit, envelope thresholds as integer inequalities), of infer() "
+         "and of is50or60() at sea level, with an mpmath-generated CAS table for the Mach/IAS rule; TLC checks completeness/soundness "
+         "lemmas; boundary-directed payloads replayed into infer/isXX/is50or60 and every result recomputed by TLC",
+         "In-envelope encodings of five registers, every single-bit flip of them, every threshold +-1 LSB, ELS register cells, DF17/18 x TC, "
+         "Mach/IAS rule on the CAS grid, both-5,0-and-6,0 payloads with decisive references, 11k recorded frames, random dense/sparse payloads.",
+         "The Mach/IAS rule is judged only where the CAS table decides it within 0.05 kt (else either verdict accepted); is50or60 is judged "
+         "only with alt_ref = 0 and references that make the nearest interpretation decidable without trigonometry.",
+         "DESIGN.md section 5 C12"),
 }
 
 PENDING = {}
